@@ -35,6 +35,16 @@ func Replay(o *Obligation, m *Model, opts *CheckOpts) (outcome, detail, testSrc 
 	termMu.Lock()
 	defer termMu.Unlock()
 	rp := &replayer{o: o, g: g, opts: opts}
+	// hand-written harness for stateful units (file system, goroutines, ...)
+	if hb, err := os.ReadFile(filepath.Join(opts.VerifDir, "replay", sanitize(ShortKey(g.Key))+".go.txt")); err == nil {
+		src := string(hb)
+		out, err := rp.run(src)
+		if err != nil {
+			return "build-error", err.Error() + "\n" + out, src
+		}
+		oc, det := rp.judgeHarness(out)
+		return oc, det, src
+	}
 	if why := rp.plan(); why != "" {
 		return "no-harness", why, ""
 	}
@@ -964,4 +974,35 @@ func (rp *replayer) fieldAccess(t types.Type, acc []int) (string, string) {
 		return " ", ""
 	}
 	return sb.String(), ""
+}
+
+// judgeHarness interprets the output of a hand-written harness: a panic confirms
+// no-panic obligations; "VPR postfail <clause>" confirms the clause it names.
+func (rp *replayer) judgeHarness(out string) (string, string) {
+	var lines []string
+	panicked := ""
+	for _, l := range strings.Split(out, "\n") {
+		if strings.HasPrefix(l, "VPR ") {
+			lines = append(lines, l)
+			if strings.HasPrefix(l, "VPR panic ") {
+				panicked = strings.TrimPrefix(l, "VPR panic ")
+			}
+		}
+	}
+	detail := "hand-written harness /verif/replay/" + sanitize(ShortKey(rp.g.Key)) + ".go.txt\n" + strings.Join(lines, "\n")
+	if panicKinds[rp.o.Kind] || rp.o.Kind == "pre" {
+		if panicked != "" {
+			return "confirmed", "the real code panics: " + panicked + "\n" + detail
+		}
+		return "not-reproduced", detail
+	}
+	for _, l := range lines {
+		if strings.HasPrefix(l, "VPR postfail ") && strings.TrimSpace(strings.TrimPrefix(l, "VPR postfail ")) == strings.TrimSpace(rp.o.Clause) {
+			return "confirmed", "the clause is false on the real code\n" + detail
+		}
+	}
+	if panicked != "" && rp.o.Kind == "post" {
+		return "confirmed", "the real code panics: " + panicked + "\n" + detail
+	}
+	return "not-reproduced", detail
 }
